@@ -85,6 +85,7 @@ def dropped_on_a_path(f, l, defblock):
 def run(ck, facts, R, crate="mimium_lang", scope=("::compiler::typing",), floor=4):
     ck.rule(R, "in the type checker, a vector of errors produced by a call is looked at again on every path to a normal return (returned, appended, passed on, or tested with is_empty/len); a path on which it is only dropped discards diagnostics already found, so the checker accepts a program it knows to be ill-typed")
     n = 0
+    dropped = {}
     for f in facts.crate(crate).fns:
         if f.kind == "promoted" or "::test" in f.path or not any(s in f.path for s in scope):
             continue
@@ -95,9 +96,15 @@ def run(ck, facts, R, crate="mimium_lang", scope=("::compiler::typing",), floor=
             prod = (callee(t) or "?").split("::")[-1]
             key = "drop|%s|%s%s" % (f.short, prod, "" if sum(1 for v in vecs if (callee(v[3]) or "?").split("::")[-1] == prod) == 1 else "#%d" % i)
             if dropped_on_a_path(f, l, b):
-                ck.bad(R, key, "%s collects the errors of its sub-problems in `%s` (%s) and has a path to a normal return on which that vector is neither returned nor tested: the errors found for the elements are discarded and the caller is told the types unify" % (f.short, name, f.where(t)), f.where(t))
+                # a violating instance is keyed by its module and producer with the number of such instances there (a
+                # renamed function keeps the key of a listed finding; one more dropping function changes it)
+                root_short = (facts.fn(f.root) or f).short
+                dropped.setdefault((root_short.rsplit("::", 1)[0], prod), []).append((f, name, t))
             else:
                 ck.ok(R, key, {"function": f.short, "vector": name, "defined_at": f.where(t)})
+    for (mod, prod), lst in sorted(dropped.items()):
+        f, name, t = lst[0]
+        ck.bad(R, "drop|%s|%s|x%d" % (mod, prod, len(lst)), "%s collects the errors of its sub-problems in `%s` (%s) and has a path to a normal return on which that vector is neither returned nor tested: the errors found for the elements are discarded and the caller is told the types unify" % (", ".join(sorted({x[0].short for x in lst})), name, f.where(t)), f.where(t))
     ck.floor(R, "error_vectors_tracked", n, floor)
     # ---- a whole Result thrown away: `let _ = self.unify_types(a, b);`
     m = 0
